@@ -1796,3 +1796,9 @@ func (fg *FuncGen) pendSet(t TTerm, val bool) {
 	cur := fg.famIn(fg.st, "G_pend")
 	fg.setFam("G_pend", fmt.Sprintf("(ite (= (itype %s) 0) %s (store %s (iref %s) %v))", t.S, cur, cur, t.S, val))
 }
+
+// newBareFuncGen: a FuncGen without a Go function behind it (lemma obligations): only the prologue segment is used.
+func newBareFuncGen(g *Gen, key string) *FuncGen {
+	return &FuncGen{g: g, key: key, ver: map[string]int{}, counters: map[string]int{}, reach: map[*ssa.BasicBlock]string{},
+		callsExternalUnmodelled: map[string]bool{}}
+}
